@@ -159,3 +159,7 @@ def run(ck):
 # session 5 (round 9, D24)
 EXPLANATION = EXPLANATION + " " + (
     'SIB/ref-conditions also holds local update pins (a working local the reference adjusts in place, `copy -= wnext`, keeps an in-place update under the same name in the same function) and update-count pins (a field updated in place at n >= 2 places of the reference keeps n such updates).')
+
+# session 5 (round 11)
+EXPLANATION = EXPLANATION + " " + (
+    'Local assign pins (round 11): a working local that the reference re-loads from a state value (`op = wnext` in the fast loop) keeps such an assignment under the same name.')
